@@ -12,7 +12,7 @@ type thr struct {
 	Q, P, V float64 // 0 = absent
 }
 
-var eleShapes = []thr{{}, {Q: 0.5}, {P: 1.5}, {Q: 0.5, P: 1.5}, {P: 0.5, V: 1.5}, {Q: 0.5, P: 1, V: 1.5}, {P: 1, V: 2}}
+var eleShapes = []thr{{}, {Q: 0.5}, {P: 1.5}, {Q: 0.5, P: 1.5}, {P: 0.5, V: 1.5}, {Q: 0.5, P: 1, V: 1.5}, {P: 1, V: 2}, {Q: 1}, {Q: 1, P: 2}} // the last three hit difference == p / v / q exactly
 
 type distFn struct {
 	A, B    float64
